@@ -85,7 +85,10 @@ def run_streams(ctx, mask, monitor, signature, streams, known=None):
     for name, nq, nth, kw in streams:
         for i in range(ctx.budget(nq, nth)):
             rng = ctx.case_rng(name, i)
-            recipe = S.gen_sim(rng, gen=name, **kw)
+            if kw.get('saturate'):
+                recipe = S.gen_saturate(rng, kw['saturate'], gen=name)
+            else:
+                recipe = S.gen_sim(rng, gen=name, **kw)
             recipe['case_index'] = i
             case, run = S.drive(recipe, mask)
             cases.append(case)
